@@ -371,6 +371,41 @@ def mode_history(p):
     return search(one, 100)
 
 
+def mode_starved(p):
+    """a component that attracts (almost) no data: parameters must stay finite and valid"""
+    from bob.learn.em import GMMMachine
+    trainer = p.get("trainer", "ml")
+
+    def one(seed):
+        rs = np.random.RandomState(seed)
+        D = rs.randint(1, 3)
+        x = rs.normal(size=(12, D))
+        if seed % 2:
+            x[:6] = x[0]                     # duplicates
+        ubm = mk(2, D, seed)
+        mm = ubm.means.copy()
+        mm[1] = 1e4
+        ubm.means = mm
+        import itertools
+        for um, uv, uw in itertools.product((True, False), repeat=3):
+            if trainer == "map":
+                m = GMMMachine(2, trainer="map", ubm=ubm, update_means=um, update_variances=uv, update_weights=uw, max_fitting_steps=3)
+            else:
+                m = mk(2, D, seed, update_means=um, update_variances=uv, update_weights=uw, max_fitting_steps=3)
+                m.means = mm
+            with np.errstate(all="ignore"):
+                m.fit(x)
+            ok = (np.all(np.isfinite(m.means)) and np.all(np.isfinite(m.variances)) and np.all(np.isfinite(m.weights))
+                  and np.all(m.variances >= np.broadcast_to(m.variance_thresholds, m.variances.shape)) and np.all(m.weights >= 0)
+                  and np.all(np.isfinite(m.log_likelihood(x))))
+            if trainer == "map" and uv:
+                continue      # recorded finding KF-MAP-VAR concerns the value, not finiteness
+            if not ok:
+                return {"input": {"x": x.tolist(), "update": [um, uv, uw]}, "observed": {"means": m.means.tolist(), "variances": m.variances.tolist(), "weights": m.weights.tolist()},
+                        "what": "non-finite or invalid parameters after training with a starved component"}
+    return search(one, 30)
+
+
 MODES = {k[5:]: v for k, v in list(globals().items()) if k.startswith("mode_")}
 
 if __name__ == "__main__":
